@@ -195,7 +195,7 @@ func signatureOf(p gopacket.Packet) (sig c02gen.Sig) {
 	sig = append(sig, c02gen.Rendering(p)...)
 	c02gen.AttachNetworkLayers(p)
 	sig = append(sig, c02gen.Checksums(p)...)
-	sig = append(sig, "string-after-verify="+c02gen.Call("String", p.String))
+	sig = append(sig, "string-after-verify="+c02gen.NoErrText(c02gen.Call("String", p.String)))
 	return sig
 }
 
@@ -240,7 +240,7 @@ func observeKeep(buf []byte, j job, opts gopacket.DecodeOptions, w *watch) (sig 
 		afterCall("SetNetworkLayerForChecksum")
 	}
 	sig = append(sig, c02gen.Checksums(p)...)
-	sig = append(sig, "string-after-verify="+c02gen.Call("String", p.String)) // rendering AFTER verification: must not have changed
+	sig = append(sig, "string-after-verify="+c02gen.NoErrText(c02gen.Call("String", p.String))) // rendering AFTER verification: must not have changed
 	if pp, ok := p.(gopacket.PooledPacket); ok {
 		pp.Dispose()
 		return sig, nil
@@ -482,7 +482,7 @@ func exec(a []string) string {
 func gen(r *lib.Rand, tier string, emit func(string)) {
 	nCorpus, nBuilt, nRandom := 180, 220, 60
 	if tier == "thorough" {
-		nCorpus, nBuilt, nRandom = -1, 12000, 3000
+		nCorpus, nBuilt, nRandom = -1, 5000, 1500
 	}
 	ins := c02gen.Inputs(r, nCorpus, nBuilt, 30, nRandom)
 	for i, in := range ins {
